@@ -416,6 +416,26 @@ func c28Cases() []chainCase {
 				}})
 		}
 	}
+	// transfer onto a key that already holds an application record in any state (here: P2 has begun unstaking):
+	// must be refused; both records, the pool and every balance besides the fee stay as they are
+	{
+		env := env
+		pre := []BlockSpec{blk(tx("app_stake", "P2", "value", "1000000")), blk(tx("app_unstake", "P2"))}
+		t := tx("app_stake", "P1", "app", "P2", "value", "0", "chains", "")
+		cases = append(cases, chainCase{Name: "transfer/onto-unstaking-application", Class: "transfer", Env: env, Want: []string{"balances", "apppool"},
+			Ref: append(append([]BlockSpec{}, pre...), BlockSpec{}), Subject: append(append([]BlockSpec{}, pre...), blk(t)),
+			Oracle: func(r, s JobResult) (string, string) {
+				before, after := obsRecords(r, "apps"), obsRecords(s, "apps")
+				if before["P2"] == nil || before["P2"]["status"] != "1" {
+					return "", "" // P2 is not in the unstaking state in the reference run: nothing to check
+				}
+				desc := fmt.Sprintf("application transfer signed by P1 onto the key of P2, which is unstaking: result code %d; applications before %v, after %v", lastTx(s).Code, before, after)
+				if lastTx(s).Code == 0 || fmt.Sprint(after["P1"]) != fmt.Sprint(before["P1"]) || fmt.Sprint(after["P2"]) != fmt.Sprint(before["P2"]) {
+					return "transfer-onto-existing-application", desc
+				}
+				return "", ""
+			}})
+	}
 	return cases
 }
 
